@@ -13,6 +13,7 @@ typedef unsigned long size_t;
 #define ERANGE 34
 int errno_;
 #define errno errno_
+extern "C" void stub_copy_chars(char *d, const char *p, unsigned long n) { for (unsigned i = 0; i < SCAP; i++) if (i < n) d[i] = p[i]; for (unsigned i = 0; i < SCAP + 1; i++) if (i >= n) d[i] = 0; }
 extern "C" size_t stub_find(const char *d, size_t n, char c) { for (size_t i = 0; i < SCAP; i++) if (i < n && d[i] == c) return i; return (size_t)-1; }
 extern "C" size_t stub_find_set(const char *d, size_t n, const char *set)
 {
@@ -23,6 +24,10 @@ namespace std {
 struct string {
   mutable char d[SCAP + 1]; size_t n;
   static const size_t npos = (size_t)-1;
+  string() { n = 0; d[0] = 0; }
+  string(const string &o) { n = o.n; stub_copy_chars(d, o.d, o.n <= SCAP ? o.n : 0); }
+  string &operator=(const string &o) { n = o.n; stub_copy_chars(d, o.d, o.n <= SCAP ? o.n : 0); return *this; }
+  string(const char *p, size_t len) { __CPROVER_assert(len <= SCAP, "C17.safety.substring_length_within_the_source_string"); n = len <= SCAP ? len : 0; stub_copy_chars(d, p, n); }
   const char *c_str() const { return &d[0]; }
   size_t length() const { return n; }
   size_t size() const { return n; }
@@ -53,8 +58,26 @@ struct integer_class { int tag; integer_class(const std::string &s) { tag = 1; }
 inline RCPBasic integer(long l) { Res r; r.kind = 0; r.ival = l; return r; }
 inline RCPBasic integer(const integer_class &c) { Res r; r.kind = 2; r.ival = 0; return r; }
 inline RCPBasic real_double(double d) { Res r; r.kind = 1; r.ival = 0; return r; }
-namespace fast_float { struct from_chars_result { const char *ptr; }; inline from_chars_result from_chars(const char *a, const char *b, double &d) { from_chars_result r; r.ptr = b; d = nondet_double(); return r; } }
-struct Parser { RCPBasic parse_numeric(const std::string &expr); };
+/* fast_float::from_chars(first, last, value): parses the LONGEST prefix of the form  digits* [ "." digits* ] [ (e|E) [+-] digits+ ]  with at least one digit in the
+   mantissa (the exponent is taken only when digits follow); ptr points just after it (ptr == first when nothing parses).  The value itself is opaque. */
+extern "C" unsigned long stub_float_prefix(const char *s, unsigned long n)
+{
+  unsigned long i = 0; bool digits = false;
+  for (unsigned k = 0; k < SCAP; k++) if (i < n && s[i] >= '0' && s[i] <= '9') { i++; digits = true; }
+  if (i < n && s[i] == '.') { unsigned long j = i + 1; bool fd = false; for (unsigned k = 0; k < SCAP; k++) if (j < n && s[j] >= '0' && s[j] <= '9') { j++; fd = true; } if (digits || fd) { i = j; digits = true; } }
+  if (!digits) return 0;
+  if (i < n && (s[i] == 'e' || s[i] == 'E')) { unsigned long j = i + 1; if (j < n && (s[j] == '+' || s[j] == '-')) j++; bool ed = false; for (unsigned k = 0; k < SCAP; k++) if (j < n && s[j] >= '0' && s[j] <= '9') { j++; ed = true; } if (ed) i = j; }
+  return i;
+}
+namespace fast_float { struct from_chars_result { const char *ptr; }; inline from_chars_result from_chars(const char *a, const char *b, double &d) { from_chars_result r; r.ptr = a + stub_float_prefix(a, (unsigned long)(b - a)); d = nondet_double(); return r; } }
+/* std::tuple<RCP, RCP> / std::make_tuple: a pair record */
+struct RCPPair { Res first, second; };
+inline RCPPair make_pair_of(const Res &a, const Res &b) { RCPPair p; p.first = a; p.second = b; return p; }
+Res one;
+/* parse_identifier: a symbol / constant named by the string (ghost: kind 3, the string recorded) */
+std::string last_identifier;
+struct Parser { RCPBasic parse_numeric(const std::string &expr); RCPPair parse_implicit_mul(const std::string &expr);
+  RCPBasic parse_identifier(const std::string &expr) { last_identifier = expr; Res r; r.kind = 3; r.ival = (long)expr.n; return r; } };
 #include "pn.inc"
 static bool is_dig(char c) { return c >= '0' && c <= '9'; }
 /* acceptor for the tokenizer's NUMERIC token (tokenizer.re): (dig* "."? dig+ ([eE][-+]?dig+)?) | (dig+ ".") */
@@ -89,4 +112,32 @@ extern "C" void h_parse_numeric(void)
   if (plain) OBL("C17.parse_numeric.post.decimal_integer_literal_is_read_in_base_10", r.kind == 0 && r.ival == dec);
   else OBL("C17.parse_numeric.post.literal_with_point_or_exponent_is_a_float", r.kind == 1);
   REACHABLE("h_parse_numeric");
+}
+
+static bool is_ident_start(char c) { return (c >= 'a' && c <= 'z') || (c >= 'A' && c <= 'Z') || c == '_'; }
+static bool is_ident_char(char c) { return is_ident_start(c) || is_dig(c); }
+/* IMPLICIT_MUL token = NUMERIC followed by an identifier (tokenizer.re).  Contract of parse_implicit_mul: the numeric factor is
+   parse_numeric of the longest prefix that reads as a number, the other factor is the identifier named by the rest */
+extern "C" void h_parse_implicit_mul(void)
+{
+  one.kind = 0; one.ival = 1;
+  std::string e; unsigned n = nondet_uint(); __CPROVER_assume(2 <= n && n <= SCAP); e.n = n;
+  for (unsigned i = 0; i < SCAP; i++) { if (i < n) e.d[i] = (char)nondet_schar(); else e.d[i] = 0; }
+  e.d[SCAP] = 0;
+  /* the token: a NUMERIC prefix of length m followed by an identifier */
+  unsigned m = nondet_uint(); __CPROVER_assume(1 <= m && m < n);
+  __CPROVER_assume(is_numeric_token(e.d, m) && is_ident_start(e.d[m]));
+  for (unsigned i = 0; i < SCAP; i++) if (i > m && i < n) __CPROVER_assume(is_ident_char(e.d[i]));
+  __CPROVER_assume(!is_numeric_token(e.d, n));          /* a string that is a NUMERIC as a whole is tokenised as NUMERIC (first rule wins), never as IMPLICIT_MUL */
+  unsigned split = (unsigned)stub_float_prefix(e.d, n);            /* the longest numeric prefix (>= m by maximality is NOT assumed) */
+  long dec = 0; bool plain = true;
+  for (unsigned i = 0; i < SCAP; i++) if (i < split) { if (is_dig(e.d[i])) dec = dec * 10 + (e.d[i] - '0'); else plain = false; }
+  verif_may_throw = false;
+  Parser p; RCPPair r = p.parse_implicit_mul(e);
+  OBL("C17.parse_implicit_mul.post.numeric_factor_is_the_longest_numeric_prefix", plain ? (r.first.kind == 0 && r.first.ival == dec) : r.first.kind == 1);
+  /* the number reader (from_chars) accepts a slightly wider language than the NUMERIC token ("6.E9"): if it consumes the whole token the other factor is 1 */
+  if (split == n) OBL("C17.parse_implicit_mul.post.other_factor_is_one_when_the_number_takes_the_whole_token", r.second.kind == 0 && r.second.ival == 1);
+  else OBL("C17.parse_implicit_mul.post.other_factor_is_the_identifier_named_by_the_rest", r.second.kind == 3 && r.second.ival == (long)(n - split) && last_identifier.n == n - split);
+  for (unsigned i = 0; i < SCAP; i++) if (split < n && i < n - split) OBL("C17.parse_implicit_mul.post.identifier_characters", last_identifier.d[i] == e.d[split + i]);
+  REACHABLE("h_parse_implicit_mul");
 }
